@@ -171,5 +171,63 @@ func ClassExprs(mode string, seed int, full bool) []ClassExpr {
 			}
 		}
 	}
+	// structural classes: bases that the compiler normalises to "everything" / "nothing" / a negated form,
+	// alone and with a subtraction (always generated; subtraction not under RE2, which has no such syntax)
+	usable := func(its []citem) bool {
+		for _, it := range its {
+			if it.prop && mode == "e" || mode == "i" && !it.ascii {
+				return false
+			}
+		}
+		return true
+	}
+	mk := func(neg bool, its []citem, sub *ClassExpr) *ClassExpr {
+		before := len(out)
+		add(neg, its, sub)
+		if len(out) > before {
+			return &out[len(out)-1]
+		}
+		return nil
+	}
+	bases := []struct {
+		neg bool
+		its []citem
+	}{{false, []citem{sh('s'), sh('S')}}, {false, []citem{sh('d'), sh('D')}}, {false, []citem{sh('W'), sh('w')}}, {false, []citem{rr(0, 0x10FFFF)}}, {false, []citem{pp("L", false), pp("L", true)}},
+		{false, []citem{rr(0, 0x7f), rr(0x80, 0x10FFFF)}}, {true, []citem{rr(0, 0x10FFFF)}}, {true, []citem{sh('s'), sh('S')}}, {false, []citem{rr('a', 'z'), rr('0', '9')}}, {false, []citem{sh('w')}},
+		{true, []citem{r1('a')}}, {true, []citem{sh('d')}}, {false, []citem{rr(0, 'a'), rr('c', 0x10FFFF)}}}
+	subs := []struct {
+		neg bool
+		its []citem
+		sub []citem // nested subtraction
+	}{{false, []citem{r1('a')}, nil}, {false, []citem{rr('a', 'c')}, nil}, {false, []citem{rr('0', '9')}, []citem{r1('5')}}, {false, []citem{sh('d')}, nil}, {true, []citem{r1('a')}, nil},
+		{false, []citem{r1('é')}, nil}, {false, []citem{rr('A', 'C')}, nil}, {false, []citem{r1(0x10000)}, nil}, {false, []citem{sh('s'), sh('S')}, nil}, {false, []citem{r1('k')}, nil}}
+	for _, b := range bases {
+		if !usable(b.its) {
+			continue
+		}
+		mk(b.neg, b.its, nil)
+		if mode == "r" {
+			continue
+		}
+		for _, sb := range subs {
+			if !usable(sb.its) || !usable(sb.sub) {
+				continue
+			}
+			// build the subtracted class without registering it as a class of its own
+			save, saveSeen := out, seen
+			out, seen = nil, map[string]bool{}
+			var inner *ClassExpr
+			if sb.sub != nil {
+				add(false, sb.sub, nil)
+				in := out[0]
+				inner = &in
+				out, seen = nil, map[string]bool{}
+			}
+			add(sb.neg, sb.its, inner)
+			sc := out[0]
+			out, seen = save, saveSeen
+			mk(b.neg, b.its, &sc)
+		}
+	}
 	return out
 }
